@@ -7,6 +7,11 @@ such paths (or raise Bad7zFile); every file-system call of the 7z reader and of
 the archive extractor gets the obligation that its path argument is INSIDE the
 private temporary directory; ZIP/TAR paths have no file-system call at all
 (policy, from the AST); skip rules dominate every member dispatch.
+
+Round 5: the containment test may be written with os.path.commonprefix / commonpath / relpath (assumed models below; commonprefix is a
+character prefix and does not prove INSIDE); a file-system call in a symbolically executed function whose path the AST policy cannot follow
+is decided by its own fs-confined VC (the policy then only asks that every call site passes a confined directory); a second BOUNDED native
+scope pins the temp dir name (`../<temp dir name>/x` re-enters the private directory: recorded finding, proposed_fixes/C09_2_climbing_names.diff).
 """
 import os
 
@@ -28,12 +33,15 @@ DRIVE = z3.Function("os_path_splitdrive_drive", S, S)
 TAIL = z3.Function("os_path_splitdrive_tail", S, S)
 ISABS = z3.Function("os_path_isabs", S, z3.BoolSort())
 NORM = z3.Function("is_normalised_absolute", S, z3.BoolSort())
+NORMPATH = z3.Function("os_path_normpath", S, S)
 SEP = z3.StringVal("/")
 
 
 def inside(base, r):
+    """r is base itself, or a normalised absolute path that equals abspath(base), lies below abspath(base) + sep, or -- when abspath(base)
+    already ends in a separator (the file-system root) -- has it as a prefix."""
     b = ABS(base)
-    return z3.Or(r == base, z3.And(NORM(r), z3.Or(r == b, z3.PrefixOf(z3.Concat(b, SEP), r))))
+    return z3.Or(r == base, z3.And(NORM(r), z3.Or(r == b, z3.PrefixOf(z3.Concat(b, SEP), r), z3.And(z3.SuffixOf(SEP, b), z3.PrefixOf(b, r)))))
 
 
 # ------------------------------------------------------ assumed os.path models --
@@ -50,6 +58,62 @@ def m_join(ex, st, args, kwargs, node):
 def m_splitdrive(ex, st, args, kwargs, node):
     p = args[0].t
     return [(st, VTuple([VStr(DRIVE(p)), VStr(TAIL(p))]))]
+
+
+def _two_strings(st, v):
+    """the two str terms of a 2-element list / tuple literal, else None"""
+    from pyvc.values import VRef
+    items = None
+    if isinstance(v, VTuple):
+        items = list(v.items) if hasattr(v, "items") else None
+    elif isinstance(v, VRef):
+        o = st.obj(v.ref)
+        if o.kind == "list" and isinstance(o.data, list):
+            items = list(o.data)
+    if items is not None and len(items) == 2 and all(isinstance(x, VStr) for x in items):
+        return items[0].t, items[1].t
+    return None
+
+
+def m_commonprefix(ex, st, args, kwargs, node):
+    """os.path.commonprefix([a, b]): the longest common *character* prefix (PY-OSPATH): r is a prefix of both, and r == a iff a is a prefix of b"""
+    ab = _two_strings(st, args[0]) if args else None
+    if ab is None:
+        return ex.havoc_call(st, "os.path.commonprefix", args, node)
+    a, b = ab
+    r = z3.String(fresh_name("commonprefix"))
+    st.assume(z3.And(z3.PrefixOf(r, a), z3.PrefixOf(r, b), z3.Implies(z3.PrefixOf(a, b), r == a), z3.Implies(z3.PrefixOf(b, a), r == b)))
+    return [(st, VStr(r))]
+
+
+def m_commonpath(ex, st, args, kwargs, node):
+    """os.path.commonpath([a, b]) for normalised absolute a, b: the longest common *component* prefix; r == a iff b == a, b lies below
+    a + sep, or a ends in a separator (root) and is a prefix of b.  May raise ValueError (mixed absolute / relative: excluded by NORM)."""
+    ab = _two_strings(st, args[0]) if args else None
+    if ab is None:
+        return ex.havoc_call(st, "os.path.commonpath", args, node)
+    a, b = ab
+    r = z3.String(fresh_name("commonpath"))
+    below = lambda x, y: z3.Or(y == x, z3.PrefixOf(z3.Concat(x, SEP), y), z3.And(z3.SuffixOf(SEP, x), z3.PrefixOf(x, y)))
+    st.assume(z3.Implies(z3.And(NORM(a), NORM(b)), z3.And(z3.PrefixOf(r, a), z3.PrefixOf(r, b), (r == a) == below(a, b), (r == b) == below(b, a))))
+    if not (ex.feasible(st.pc, z3.And(NORM(a), NORM(b))) and not ex.feasible(st.pc, z3.Not(z3.And(NORM(a), NORM(b))))):
+        ex.exc_any(st.fork(), f"{ex.loc(node)} os.path.commonpath on paths not known to be normalised absolute")
+    return [(st, VStr(r))]
+
+
+def m_relpath(ex, st, args, kwargs, node):
+    """os.path.relpath(t, b) for normalised absolute t, b (POSIX): the result climbs (is `..` or starts with `../`) iff t is not b and does not
+    lie below b; it is `.` iff t == b.  Anything else about it stays unconstrained."""
+    if len(args) != 2 or kwargs or not all(isinstance(x, VStr) for x in args):
+        return ex.havoc_call(st, "os.path.relpath", args, node)
+    t, b = args[0].t, args[1].t
+    r = z3.String(fresh_name("relpath"))
+    below = z3.Or(t == b, z3.PrefixOf(z3.Concat(b, SEP), t), z3.And(z3.SuffixOf(SEP, b), z3.PrefixOf(b, t)))
+    climbs = z3.Or(r == z3.StringVal(".."), z3.PrefixOf(z3.StringVal("../"), r))
+    st.assume(z3.Implies(z3.And(NORM(t), NORM(b)), z3.And(climbs == z3.Not(below), (r == z3.StringVal(".")) == (t == b), z3.Length(r) > 0)))
+    if not (ex.feasible(st.pc, z3.And(NORM(t), NORM(b))) and not ex.feasible(st.pc, z3.Not(z3.And(NORM(t), NORM(b))))):
+        ex.exc_any(st.fork(), f"{ex.loc(node)} os.path.relpath on paths not known to be normalised absolute")
+    return [(st, VStr(r))]
 
 
 def m_isabs(ex, st, args, kwargs, node):
@@ -105,17 +169,26 @@ if not any(getattr(f, "__name__", "") == "_over" and f.__module__ == __name__ fo
     _solve.SAT_UNTRUSTED.append(_over)
 
 
+# primitives whose every call is a confinement VC of its own in a symbolically executed function (anything else there is havoc -> `unknown`)
+SYMBOLIC_FS = ("open", "os.path.exists", "os.path.lexists", "os.path.isfile", "os.path.isdir", "os.path.getsize", "os.unlink", "os.rmdir",
+               "os.makedirs", "os.remove", "os.mkdir")
+
+
 def install(reg):
     reg.ext_models["os.path.abspath"] = m_abspath
     reg.ext_models["os.path.join"] = m_join
     reg.ext_models["os.path.splitdrive"] = m_splitdrive
     reg.ext_models["os.path.isabs"] = m_isabs
-    reg.ext_models[("const", "os.sep")] = VStr("/")
-    for k in ("os.path.exists", "os.path.lexists", "os.path.isfile", "os.path.isdir", "os.path.getsize", "os.unlink", "os.rmdir"):
-        reg.ext_models[k] = fs_call(k)
-    reg.ext_models["os.makedirs"] = fs_call("os.makedirs")
-    reg.ext_models["os.remove"] = fs_call("os.remove")
-    reg.ext_models["os.mkdir"] = fs_call("os.mkdir")
+    reg.ext_models["os.path.commonprefix"] = m_commonprefix
+    reg.ext_models["os.path.commonpath"] = m_commonpath
+    reg.ext_models["os.path.relpath"] = m_relpath
+    reg.ext_models["os.path.normpath"] = lambda ex, st, args, kwargs, node: ([(st, VStr(NORMPATH(args[0].t)))] if len(args) == 1 and isinstance(args[0], VStr) and not kwargs
+                                                                             else ex.havoc_call(st, "os.path.normpath", args, node))
+    for k, v in (("os.sep", "/"), ("os.path.sep", "/"), ("os.pardir", ".."), ("os.path.pardir", ".."), ("os.curdir", "."), ("os.path.curdir", ".")):
+        reg.ext_models[("const", k)] = VStr(v)            # POSIX (the replayer runs the real functions on this platform)
+    for k in SYMBOLIC_FS:
+        if k != "open":                                   # the builtin: FsExecutor.b_open
+            reg.ext_models[k] = fs_call(k)
     reg.ext_models[("with", "File")] = with_file
 
 
@@ -244,14 +317,25 @@ def policy(repo, tier):
     obls.append(_obl("C09/package/policy#file-system-primitives-are-recognised", not conf_err and not odd and len(sites) >= 4,
                      conf_err or "; ".join(odd) or f"{len(sites)} file-system call sites, all path-determined primitives", "archive_extractor.py, sevenzip.py",
                      first=("7z unix symlink", "tar links")))
+    sym_fns = {}
+    try:
+        sym_fns[(ARCH, "_process_7z_files_sequential")] = real_params(ARCH, "_process_7z_files_sequential", ("files_to_process", "temp_dir", "archive_path"))[1]
+    except Exception:  # noqa
+        pass
     # P6: every path that reaches such a primitive is the private base, a _safe_join(base, ...) result, its dirname, or a parameter
     #     bound to such a value at every call site (fixpoint over the helper functions of both modules)
     for rel, short, want in ((SEVEN, "sevenzip.py", ("open", "os.makedirs")), (ARCH, "archive_extractor.py", ("tempfile.TemporaryDirectory",))):
         mine = [s_ for s_ in sites if s_[0] == rel]
-        bad = [d for (_r, _q, _c, _n, v, d) in mine if v == "unconfined"]
+        # a site the path analysis cannot follow (a containment test written in line, say) is not lost when the function is executed
+        # symbolically with the private directory bound to a parameter: the call has its own `fs-confined` VC there, and what is left for
+        # the policy is that every call site passes a confined value for that parameter
+        deferred = [s_ for s_ in mine if s_[4] == "unconfined" and s_[3] in SYMBOLIC_FS and (rel, s_[1]) in sym_fns
+                    and conf is not None and conf.param_conf.get(((rel, s_[1]), sym_fns[(rel, s_[1])]))]
+        bad = [d for s_ in mine for (_r, _q, _c, _n, v, d) in [s_] if v == "unconfined" and not any(s_ is x for x in deferred)]
         seen = {n for (_r, _q, _c, n, _v, _d) in mine}
         missing = [w for w in want if w not in seen and not (w == "tempfile.TemporaryDirectory" and "tempfile.mkdtemp" in seen)]
-        detail = conf_err or "; ".join(bad) or ("; ".join(f"no {w} call found (vacuity)" for w in missing)) or f"{len(mine)} call sites, every path confined"
+        detail = conf_err or "; ".join(bad) or ("; ".join(f"no {w} call found (vacuity)" for w in missing)) or (
+            f"{len(mine)} call sites, every path confined" + (f" ({len(deferred)} of them by the fs-confined VCs of the symbolically executed function)" if deferred else ""))
         obls.append(_obl(f"C09/{short}/policy#paths-reaching-the-file-system-are-confined", not conf_err and not bad and not missing, detail, rel,
                          first=("7z member with a stream", "7z zero-length", "7z listed member", "7z directory")))
         for q in sorted({q for (_r, q, _c, _n, _v, _d) in mine if q in mods[rel].functions}):
@@ -341,40 +425,68 @@ def _native(req, repo, timeout=300):
         return {"error": str(e)}
 
 
+PINNED_OID = "C09/replay::native-scope/bounded#7z-read-back-path-identifies-one-member-when-the-temp-dir-name-is-known.BOUNDED"
+PINNED_FINDING = "C09-7z-read-back-collision-through-temp-dir-name"
+NATIVE_SCOPES = ((COLLISION_OID, COLLISION_FINDING, "4 collision layouts x (solid, one folder per file), per-member limit 1000 bytes"),
+                 (PINNED_OID, PINNED_FINDING, "3 layouts re-entering the private directory through its (pinned) name x (solid, one folder per file), per-member limit 1000 bytes"))
+
+
+def _native_scope(oid, bound, repo):
+    import json
+    res = _native({"property": "C09", "obligation": oid, "repo": repo}, repo)
+    if "error" in res or "crashed" in str(res.get("note", "")):
+        return {"obligations": [], "undecided": [{"obligation": oid, "why": "native scope could not run: " + str(res.get("error", res.get("note")))[:300]}]}
+    ok = not res.get("reproduced")
+    o = ground_obligation(oid, ok, "" if ok else f"{json.dumps((res.get('inputs') or {}).get('archive'))}: {str(res.get('observed'))[:300]}",
+                          "replay/C09_probe.py", kind="bounded", backend="native-replay")
+    o["bounded"] = True
+    o["bound"] = bound
+    return {"obligations": [o]}
+
+
 def native_collisions(repo, tier):
     """BOUNDED stand-in (DESIGN 2.8): 7z members are read back from the temp dir by path, and no contract says that a path belongs to one
     entry only.  The native scope (entries sharing a name, `x` vs `./x`, `x` vs `__MACOSX/../x`, `d/x` vs `d//x`; solid and one folder per
     file) runs on the real code: a selected member that comes out with another entry's bytes is a failing input; nothing found is
     `bounded-ok`, never counted as proved."""
-    import json
-    res = _native({"property": "C09", "obligation": COLLISION_OID, "repo": repo}, repo)
-    if "error" in res or "crashed" in str(res.get("note", "")):
-        return {"obligations": [], "undecided": [{"obligation": COLLISION_OID, "why": "native scope could not run: " + str(res.get("error", res.get("note")))[:300]}]}
-    ok = not res.get("reproduced")
-    o = ground_obligation(COLLISION_OID, ok, "" if ok else f"{json.dumps((res.get('inputs') or {}).get('archive'))}: {str(res.get('observed'))[:300]}",
-                          "replay/C09_probe.py", kind="bounded", backend="native-replay")
-    o["bounded"] = True
-    o["bound"] = "4 collision layouts x (solid, one folder per file), per-member limit 1000 bytes"
-    return {"obligations": [o]}
+    try:
+        return _native_scope(COLLISION_OID, NATIVE_SCOPES[0][2], repo)
+    except Exception as e:  # noqa
+        return {"obligations": [], "undecided": [{"obligation": COLLISION_OID, "why": f"native scope could not run: {type(e).__name__}: {e}"}]}
+
+
+def native_collisions_known_temp_name(repo, tier):
+    """BOUNDED, its own obligation: the second spelling of a member's path leaves the private directory and re-enters it through the
+    directory's own name (`../<temp dir name>/x` is lexically inside, so `_safe_join` accepts it, and it is the file of `x`).  The name is
+    random in production; the scope pins tempfile's name sequence (an author who knows or guesses the name)."""
+    try:
+        return _native_scope(PINNED_OID, NATIVE_SCOPES[1][2], repo)
+    except Exception as e:  # noqa
+        return {"obligations": [], "undecided": [{"obligation": PINNED_OID, "why": f"native scope could not run: {type(e).__name__}: {e}"}]}
 
 
 def known_findings(kf, violations, repo, tier):
-    """The recorded defect covers exactly its own bounded obligation, and only while that obligation still fails on the tree under check."""
+    """A recorded defect covers exactly its own bounded obligation, and only while that obligation still fails on the tree under check."""
     out = []
     vio_ids = {v["id"] for v in violations}
+    by_finding = {fid: oid for oid, fid, _b in NATIVE_SCOPES}
     for f in kf:
-        if f.get("id") != COLLISION_FINDING:
+        oid = by_finding.get(f.get("id"))
+        if oid is None:
             continue
-        still = COLLISION_OID in vio_ids
-        out.append({"finding": f["id"], "still_fails": still, "line": f"{f['id']}: {f['what']}", "covers": [COLLISION_OID] if still else [],
-                    "witness_replay": next((v.get("reason") for v in violations if v["id"] == COLLISION_OID), "")})
+        still = oid in vio_ids
+        out.append({"finding": f["id"], "still_fails": still, "line": f"{f['id']}: {f['what']}", "covers": [oid] if still else [],
+                    "witness_replay": next((v.get("reason") for v in violations if v["id"] == oid), "")})
     return out
 
 
-EXTRA = [policy, native_collisions]
+EXTRA = [policy, native_collisions, native_collisions_known_temp_name]
 TRUSTED = ["a normalised absolute path equal to abspath(base) or prefixed by abspath(base)+sep lies inside base (no symlinks are created by the reader)",
-           "os.path.abspath returns a normalised absolute path"]
-ASSUMED_MODELS = ["os.path.abspath/join/splitdrive/isabs (uninterpreted)", "open/os.makedirs/os.path.exists (effects with confinement obligation)",
+           "os.path.abspath returns a normalised absolute path",
+           "a normalised absolute path that ends in a separator is the file-system root: every normalised absolute path with that prefix lies inside it"]
+ASSUMED_MODELS = ["os.path.abspath/join/splitdrive/isabs/normpath (uninterpreted)", "os.path.commonprefix([a, b]) (character prefix; == a iff a is a prefix of b)",
+                  "os.path.commonpath([a, b]) on normalised absolute paths (== a iff b is a or lies below a)",
+                  "os.path.relpath(t, b) on normalised absolute paths (climbs with `..` iff t is neither b nor below b)", "os.sep / os.pardir / os.curdir (POSIX values)", "open/os.makedirs/os.path.exists (effects with confinement obligation)",
                   "archive_extractor._process_archive_entry (C01)", "archive_extractor._is_supported_file_cached (C07/C15)"]
 ASSUMPTIONS = ["PY-STR", "EXC-ANY", "what third-party extractors do with member *bytes* is outside this property's contracts",
                "OS-level races (symlink swaps in the temp dir by another process) are not modelled"]
